@@ -128,9 +128,10 @@ def run_generators(gens, build: Build):
 def driver_generators():
     import gen.consts
     import gen.ff
+    import gen.ligand
     import gen.topology
 
-    return [gen.topology.generate, gen.ff.generate, gen.consts.generate]
+    return [gen.topology.generate, gen.ff.generate, gen.consts.generate, gen.ligand.generate]
 
 
 def build_and_audit(pid: str, gens=(), extra_targets=(), gens2=()) -> Build:
